@@ -525,7 +525,7 @@ def run(ctx):
             cases.append((f'([{"; ".join(slit(x) for x in lits)}], {slit(s)})', f'(Some {slit(r)})' if acc else 'None'))
             keys.append((k['class'], s))
             desc.append({'class': k['class'], 'xml': s, 'impl': r})
-    corr('enum', 'option_eqb String.eqb', 'fun c => enum_to_py (fst c) (snd c)', cases, lambda i: desc[i])
+    corr('enum', 'option_eqb String.eqb', 'fun c => enum_to_py (fst c) (snd c)', cases, lambda i, d=desc: d[i])
     ctx.count('enum', len(cases), keys, classes=len(impl['enum']), rejected=sum(1 for c in cases if c[1] == 'None'))
 
     # ------------------------------------------------------------------ durations
@@ -554,7 +554,7 @@ def run(ctx):
                 ctx.fail(f'duration {txt} s is written as {s!r}, not an SDPi duration', {'stream': 'duration', 'clause': 'lexical'},
                          {'stream': 'dur-vals', 'case': {'kind': kind, 'value': txt}, 'impl_trace': s})
             cases.append((coqlit(tus), coqlit(s), (kind, txt)))
-    corr('dur-vals', 'String.eqb', 'duration_to_xml', [c[:2] for c in cases], lambda i: {'value': cases[i][2], 'impl': cases[i][:2]})
+    corr('dur-vals', 'String.eqb', 'duration_to_xml', [c[:2] for c in cases], lambda i, cs=cases: {'value': cs[i][2], 'impl': cs[i][:2]})
     ctx.count('dur-vals', len(dur_vals), [tuple(v) for v in dur_vals], negative=nneg, beyond_timedelta_max=nover,
               with_fraction=sum(1 for c in cases if '.' in c[1]), hours=sum(1 for c in cases if 'H' in c[1]))
     ctx.sample({'stream': 'dur-vals', 'value': dur_vals[0], 'impl [xml, us, us read back, equal]': impl['dur_vals'][0]})
@@ -582,7 +582,7 @@ def run(ctx):
         desc.append({'xml': s, 'impl': r})
     # parse_duration returns timedelta.total_seconds() = microseconds / 10**6 (int / int, correctly rounded)
     corr('dur-lex', 'fun a b => (fst a =? D_UNMODELLED) || fr_eqb a b',
-         'fun s => let u := duration_to_py s in if u <? 0 then (u, 1) else rnd53 u 1000000', cases, lambda i: desc[i])
+         'fun s => let u := duration_to_py s in if u <? 0 then (u, 1) else rnd53 u 1000000', cases, lambda i, d=desc: d[i])
     ctx.count('dur-lex', len(dur_lex), dur_lex, rejected=sum(1 for r, _ in impl['dur_lex'] if r == 'REJECT'),
               overflow=sum(1 for r, _ in impl['dur_lex'] if r == 'OVERFLOW'), tie_skipped=nskip)
 
@@ -604,8 +604,8 @@ def run(ctx):
             if not XSD_DT.match(s):
                 ctx.fail(f'date/time {v} is written as {s!r}, outside the lexical space', {'stream': 'datetime', 'clause': 'lexical'},
                          {'stream': 'dt-vals', 'case': {'value': v}, 'impl_trace': s})
-            cases.append((dtlit(v), coqlit(s)))
-    corr('dt-vals', 'String.eqb', 'dt_to_xml', cases, lambda i: {'value': dt_vals[i], 'impl': impl['dt_vals'][i]})
+            cases.append((dtlit(v), coqlit(s), {'value': v, 'impl': [s, back, same]}))
+    corr('dt-vals', 'String.eqb', 'dt_to_xml', [c[:2] for c in cases], lambda i, cs=cases: cs[i][2])
     ctx.count('dt-vals', len(dt_vals), [repr(v) for v in dt_vals], with_time=sum(1 for v in dt_vals if v[3]), end_of_day=sum(1 for v in dt_vals if v[4]),
               with_tz=sum(1 for v in dt_vals if v[5] is not None))
 
@@ -636,7 +636,7 @@ def run(ctx):
             exp = f'(DtOk {dtlit([r[0], r[1], r[2], t and t[:3], r[4], r[5]])})'
         cases.append((slit(s), exp))
         desc.append({'xml': s, 'impl': r})
-    corr('dt-lex', 'dtres_eqb', 'dt_to_py', cases, lambda i: desc[i])
+    corr('dt-lex', 'dtres_eqb', 'dt_to_py', cases, lambda i, d=desc: d[i])
     ctx.count('dt-lex', len(dt_lex), dt_lex, rejected=sum(1 for r, _ in impl['dt_lex'] if is_err(r)), nonexistent_day_accepted=ndom)
 
     # ------------------------------------------------------------------ the property classes use these converters
